@@ -37,10 +37,10 @@ CHECKS = {
     'C13': ('model_checking', 'PARTIAL: decides only the structural clause "x / y, scalar / y and elementwise_divide return a TT tensor of the same shape and raise nothing" on HAVOC data (the exact clause "dividing by a scalar" is decided '
             'under C03); the accuracy of the AMEn division is not encodable and not claimed.', '4 C13'),
     'C14': ('model_checking', 'PARTIAL: decides only the clause "dmrg_cross calls the user function with an M x d int64 index matrix whose column k lies in [0, N[k])" and the absence of shape/index errors, '
-            'not the accuracy clause (convergence of a randomised floating-point iteration is not encodable) and not function_interpolate. The real dmrg_cross / _maxvol source is executed with every floating value '
+            'not the accuracy clause (convergence of a randomised floating-point iteration is not encodable); for function_interpolate only its structure (result shape, form of the arguments handed to the user function, no exception), not its data clause. The real dmrg_cross / _maxvol source is executed with every floating value '
             'abstracted to HAVOC (any value; each comparison an independent nondeterministic choice), so every outcome of pivoting, rank truncation and the convergence test is a path; the integer side '
             '(index sets, unravel_index arithmetic, gathers, concatenations, ranks) stays exact and z3 (QF_LIA) decides the range obligations per path.', '4 C14'),
-    'C15': ('model_checking', 'Autograd model on exact symbolic expressions: tracked cores are symbols, detach/item/numpy/tensor(t) are value-equal cut copies, backward() is exact differentiation. For 21 expressions over the '
+    'C15': ('model_checking', 'Autograd model on exact symbolic expressions: tracked cores are symbols, detach/item/numpy/tensor(t) are value-equal cut copies, backward() is exact differentiation. For 25 expressions over the '
             'differentiable operations and every choice of tracked operand/core, z3 decides EXISTS core values . dF_TT/dtheta != dF_dense/dtheta; grad.grad / grad.grad_list bookkeeping and shapes checked per path; '
             'each replay compares torch.autograd gradients on the real code.', '4 C15'),
     'C16': ('model_checking', 'riemannian_projection on rank-1 base points with arbitrary symbolic entries and on sparse rank-2..3 base points with symbolic magnitudes (exact symbolic QR), z, w arbitrary symbolic TT objects: '
